@@ -31,12 +31,27 @@ Proof.
   split; vm_compute; reflexivity.
 Qed.
 
-(* the repaired model on the same input: the layout ends at 69 and the non-empty sections stay where they are under a
-   second flatten; only the EMPTY section's offset follows the end of its (now extended) predecessor, then everything is fixed *)
-Lemma repaired_726 : exists h' h'',
-  flatten witness726 = (EOk, h') /\ code_size witness726 = 69 /\ code_size h' = 69 /\ map soff h' = [0; 10; 64] /\
-  flatten h' = (EOk, h'') /\ map soff h'' = [0; 64; 64] /\ code_size h'' = 69 /\ flatten h'' = (EOk, h'').
-Proof. eexists. eexists. split; [vm_compute; reflexivity|]. repeat split; vm_compute; reflexivity. Qed.
+(* the repaired model on the same input: the layout ends at 69, the empty section sits where the next non-empty one starts,
+   and a second flatten changes nothing *)
+Lemma repaired_726 : exists h',
+  flatten witness726 = (EOk, h') /\ code_size witness726 = 69 /\ code_size h' = 69 /\ map soff h' = [0; 64; 64] /\
+  flatten h' = (EOk, h').
+Proof. eexists. split; [vm_compute; reflexivity|]. repeat split; vm_compute; reflexivity. Qed.
+
+(* the residual defect after the first repair (found by the C03/C04 builder): .text 66 bytes, an EMPTY section aligned to 8, an
+   8-byte section aligned to 8.  Forward loop only (flatten_mid = the tree before fixes/C10-flatten-empty-section-offset): the empty
+   section sits at 66 after the first call and at 72 after the second *)
+Definition witness_empty : holder :=
+  [ mkSection 0 INT_MIN 0 0 0 66 [] []; mkSection 1 0 8 NO_OFFSET 0 0 [] []; mkSection 2 0 8 NO_OFFSET 0 8 [] [] ].
+
+Lemma mid_flatten_not_idempotent_refuted : exists h h' h'',
+  flatten_mid h = (EOk, h') /\ flatten_mid h' = (EOk, h'') /\ map soff h' = [0; 66; 72] /\ map soff h'' = [0; 72; 72] /\
+  exists hf, flatten h = (EOk, hf) /\ map soff hf = [0; 72; 72] /\ flatten hf = (EOk, hf).
+Proof.
+  exists witness_empty. eexists. eexists. split; [vm_compute; reflexivity|]. split; [vm_compute; reflexivity|].
+  split; [vm_compute; reflexivity|]. split; [vm_compute; reflexivity|]. eexists. split; [vm_compute; reflexivity|].
+  split; vm_compute; reflexivity.
+Qed.
 
 (* code_size of the unrepaired tree misses the wrap of align_up: a virtual section of 2^64-10 bytes, then 5 bytes aligned to 64 *)
 Definition witness_wrap : holder :=
@@ -66,7 +81,7 @@ Proof.
   - intros s. cbn. pose proof W64_pos. repeat split; try lia; try (vm_compute; reflexivity).
 Qed.
 
-Lemma ex_flatten : exists h', flatten ex_h3 = (EOk, h') /\ map sid h' = [0; 2; 1] /\ map soff h' = [0; 10; 64] /\ code_size h' = 104.
+Lemma ex_flatten : exists h', flatten ex_h3 = (EOk, h') /\ map sid h' = [0; 2; 1] /\ map soff h' = [0; 64; 64] /\ code_size h' = 104.
 Proof. eexists. split; [vm_compute; reflexivity|]. repeat split; vm_compute; reflexivity. Qed.
 
 Lemma ex_overflow : exists h, wf_holder h /\ pass1 0 h = false.
@@ -107,7 +122,18 @@ Definition ex_rel : holder :=
   [ mkSection 0 INT_MIN 0 0 16 12 (CALL_BYTES ++ CALL_BYTES) []; mkSection 1 INT_MAX 8 16 16 0 [] [] ].
 
 Lemma ex_relocate : exists h2,
-  relocate_holder ex_rel (Some 1) [(0, 1311768467463790320); (6, 4198400)] 4194304 = inl (h2, 8) /\
+  relocate_holder ex_rel (Some 1) [SCall 0 1311768467463790320; SCall 6 4198400] 4194304 = inl (h2, 8) /\
   map sdata h2 = [ [255; 21; 10; 0; 0; 0; 64; 232; 244; 15; 0; 0]; [240; 222; 188; 154; 120; 86; 52; 18] ] /\
   map sbsize h2 = [12; 8] /\ map svsize h2 = [16; 8] /\ code_size h2 = 24.
 Proof. eexists. split; [vm_compute; reflexivity|]. repeat split; vm_compute; reflexivity. Qed.
+
+(* a second relocation kind (embed_label, RelocType::kRelToAbs): .text holds 8 bytes for the address of a label bound at offset 5 of
+   the 16-aligned section 1, then 8 bytes for a label at the start of the EMPTY section 2 (placed where the table starts) *)
+Definition ex_abs : holder :=
+  [ mkSection 0 INT_MIN 0 0 16 16 (zeros 16) []; mkSection 1 0 16 16 8 5 [1; 2; 3; 4; 5] []; mkSection 2 0 8 24 0 0 [] [];
+    mkSection 3 INT_MAX 8 24 8 0 [] [] ].
+
+Lemma ex_relocate_abs : exists h2,
+  relocate_holder ex_abs (Some 3) [SAbs 0 1 5; SAbs 8 2 0] 4194304 = inl (h2, 8) /\
+  map sdata h2 = [ [21; 0; 64; 0; 0; 0; 0; 0; 24; 0; 64; 0; 0; 0; 0; 0]; [1; 2; 3; 4; 5]; []; [] ].
+Proof. eexists. split; [vm_compute; reflexivity|]. vm_compute. reflexivity. Qed.
